@@ -312,7 +312,8 @@ def r4_accumulation(ctx):
                         good = False
             else:
                 good = False
-        has_add = "+=" in kinds and "=" in kinds
+        # either `if k not in result: result[k] = v / else: result[k] += v`, or the .get(k, 0) form that needs no first store
+        has_add = ("+=" in kinds and "=" in kinds) or (kinds == ["+="] and isinstance(ups[0].stmt, ast.Assign) and ".get(" in U(ups[0].stmt.value))
         ctx.check(good and has_add, a, "sum-per-key", "contributions must be summed per substance key (result[k] = v first, += v afterwards); found %s" % [(U(u.key), u.kind, U(u.value)) for u in ups], node=inner[0])
     init = [n for n in fn.body if isinstance(n, ast.Assign) and U(n.targets[0]) == "result"]
     ctx.check(len(init) == 1 and U(init[0].value) in ("{}", "dict()") and fn.body.index(init[0]) < fn.body.index(lp), a, "starts-empty",
